@@ -1,8 +1,8 @@
 CONSTANTS Carriers = {"vps", "p1", "p2"} Vals = {"a", "b", "u"} Labels = {"p", "q"} Times = {"t", "s"} Bads = {"bad"}
   WssWords = {"x", "x2", "y", "bad"} MaxRecv = 5 UnknownOnce = TRUE XdsGuard = TRUE Calls = {}
-  Handlers = {"h1"} InitMasks = {{"NETWORK", "NETWORK_ID", "PROG_ID", "LOCAL_TIME", "ASPECT", "TTX_PAGE", "CAPTION"}} RegMasks = {} Apis = {"reg"} MaxReg = 0
+  Handlers = {"h1"} InitMasks = {{"NETWORK", "NETWORK_ID", "PROG_ID", "LOCAL_TIME", "ASPECT", "TTX_PAGE", "CAPTION"}} RegMasks = {} Apis = {"reg"} MaxReg = 0 CdLen = 40 IdleSteps = {} MaxGap = 0 MaxIdle = 0
 SPECIFICATION Spec
 CONSTRAINT Bounded
 INVARIANTS TypeOK Faithful
-PROPERTIES OfThisReception OnlyAfterRepeat VpsLabelTwice NetworkMeansChange OneNetworkEvent NotAgainWhileSame StationKept CacheKept CacheDropped Gated WssOnlyAfterRepeats AspectRevertOnlyOnChange
+PROPERTIES OfThisReception OnlyAfterRepeat VpsLabelTwice NetworkMeansChange OneNetworkEvent NotAgainWhileSame StationKept CacheKept CacheDropped Gated WssOnlyAfterRepeats AspectRevertOnlyOnChange GapKeeps DropOutOnce
 CHECK_DEADLOCK FALSE
